@@ -133,3 +133,16 @@ type BatchResult struct {
 	PairFP      []uint64    `json:"pair_fp,omitempty"`
 	Stopped     string      `json:"stopped,omitempty"`
 }
+
+type PoolObs struct {
+	VStr []string `json:"vstr"`
+	RStr []string `json:"rstr"`
+	Cmp  string   `json:"cmp"`
+	Cont string   `json:"cont"`
+}
+
+type Exp struct {
+	Pre  []string   `json:"pre,omitempty"`
+	Ops  [][]string `json:"ops"`
+	Pool []PoolObs  `json:"pool"`
+}
